@@ -647,7 +647,11 @@ impl St {
     }
 
     pub fn wstore<'gc>(&mut self, mc: &Mutation<'gc>, ps: u32, p: Ptr<'gc>, ts: u32, t: Ptr<'gc>, path: &str) -> bool {
-        let w = t.downgrade();
+        self.wstore_w(mc, ps, p, ts, t.downgrade(), path)
+    }
+
+    /// Store a weak pointer the caller already holds (possibly to a value that can no longer be upgraded).
+    pub fn wstore_w<'gc>(&mut self, mc: &Mutation<'gc>, ps: u32, p: Ptr<'gc>, ts: u32, w: WPtr<'gc>, path: &str) -> bool {
         let done = match p {
             Ptr::N(_) | Ptr::F(_) => Self::with_body(mc, p, None, Some(w), path, |_, ws| ws.push(w)).unwrap_or(false),
             Ptr::L(g) => {
